@@ -77,7 +77,11 @@ partial def nodeOfSx : Sx → Option Node
       pure (.mapLit ks vs)
     | "idx", [.atom tok, l, i] => do pure (.idx tok (← nodeOfSx l) (← nodeOfSx i))
     | "cmt", [] => pure .comment
-    | "macro", [] => pure .macroLit
+    | "macro", [.list (.atom "params" :: ps), body] => do
+      let params ← ps.mapM fun p => match p with
+        | .atom h => hexStr h
+        | _ => none
+      pure (.macroLit params (← nodeOfSx body))
     | _, _ => none
   | .list _ => none
 
@@ -175,6 +179,7 @@ partial def mentions (names : List String) : Node → Bool
   | .ret v => mentions names v
   | .builtin _ ps => ps.any (mentions names)
   | .fn _ _ _ _ _ b => mentions names b
+  | .macroLit _ b => mentions names b
   | .call f as => mentions names f || as.any (mentions names)
   | .arr els => els.any (mentions names)
   | .mapLit ks vs => ks.any (mentions names) || vs.any (mentions names)
